@@ -1,6 +1,7 @@
 (** * Driver: one case in (S-expression text), one result out.  The same function is run
     extracted to OCaml (bulk) and by vm_compute inside Coq (cross-check of the extraction). *)
 From PyxisModel Require Import Base Sexp Grammar SemTypes Registry Sem Emit.
+From PyxisModel Require C03Core.
 Local Open Scope string_scope.
 Local Open Scope list_scope.
 
@@ -63,11 +64,35 @@ Definition case_of_sexp (e : sexp) : option (N * list N * list (path * gmodule))
     Some (ptr, ks, mods)
   end.
 
+(** C03: the spec ([realisableb]) and the arithmetic core ([acceptb]) on an abstract description:
+    (c03 (ptr N) (size none|N) (align none|N) (packed 0|1) (fields (ADDR SZ AL ZARR) ...)) *)
+Definition optN_of_sexp (e : sexp) : option (option N) :=
+  match e with Atom "none" => Some None | _ => option_map Some (atom_N e) end.
+Definition c03_field_of_sexp (e : sexp) : option C03Core.field :=
+  match e with
+  | SList [a; s; al; z] =>
+    olet a' <- optN_of_sexp a; olet s' <- atom_N s; olet al' <- atom_N al; olet z' <- atom_N z;
+    Some {| C03Core.addr := a'; C03Core.sz := s'; C03Core.al := al'; C03Core.zarr := negb (N.eqb z' 0) |}
+  | _ => None
+  end.
+Definition run_c03 (fields : list sexp) : sexp :=
+  match (olet ptr <- match field "ptr" fields with Some [n] => atom_N n | _ => None end;
+         olet size <- match field "size" fields with Some [n] => optN_of_sexp n | _ => None end;
+         olet align <- match field "align" fields with Some [n] => optN_of_sexp n | _ => None end;
+         olet packed <- match field "packed" fields with Some [n] => atom_N n | _ => None end;
+         olet fs <- match field "fields" fields with Some l => omap c03_field_of_sexp l | None => None end;
+         let pk := negb (N.eqb packed 0) in
+         Some (C03Core.acceptb ptr fs size align pk, C03Core.realisableb ptr fs size align pk)) with
+  | Some (a, r) => SList [Atom "c03"; Atom (if a then "1" else "0"); Atom (if r then "1" else "0")]
+  | None => SList [Atom "c03"; Atom "bad_case"]
+  end.
+
 Definition run_case_sexp (e : sexp) : sexp :=
+  match tagged "c03" e with Some fields => run_c03 fields | None =>
   match case_of_sexp e with
   | Some (ptr, ks, mods) => run_model ptr ks mods
   | None => SList [Atom "model"; SList [Atom "bad_case"]]
-  end.
+  end end.
 
 (** text in, text out: one result line per case *)
 Definition run_cases (input : string) : list string :=
